@@ -3,6 +3,7 @@ package main
 // c17.go — C17: disconnects and bans are enforced at the door.
 
 import (
+	"sort"
 	"fmt"
 	"go/constant"
 	"go/token"
@@ -228,15 +229,29 @@ func checkC17(R *Run) {
 				"key = Split(target.RemoteAddr, \":\")[0]", fmt.Sprintf("the banned key is %s (target is the disconnected connection: %v), not strings.Split(target.RemoteAddr, \":\")[0]", key, sameTarget))
 			// duration by option
 			opt := int64(-1)
+			var optEdge *Edge
 			factEdges(h, func(e Edge, f Fact) {
 				if f.Kind == "eq" && f.Holds {
 					if n, ok := constInt(f.C); ok && (e.To == ci.Block() && len(ci.Block().Preds) == 1 || edgeDominates(h, e, ci.Block())) {
 						if isOptionByte(P, f.V) {
 							opt = n
+							ee := e
+							optEdge = &ee
 						}
 					}
 				}
 			})
+			// once the option selects a ban, the ban is recorded on every path to the reply (no further condition,
+			// such as "already on the list", may skip it: a temporary ban would not be renewed or made permanent)
+			if optEdge != nil {
+				every, ret := mustPassFromBlock(optEdge.To, func(x ssa.Instruction) bool { return x == ci.(ssa.Instruction) })
+				pos := P.ipos(ci)
+				if ret != nil {
+					pos = P.ipos(ret)
+				}
+				R.check(every, "ban-duration", fmt.Sprintf("%s: BanMgr.Add #%d unconditional", fname(h), nCreateIn(h, ci)), pos,
+					"every path from the selected option to the reply records the ban", "with the ban option selected a path reaches the reply without BanMgr.Add: the requested ban (or its new expiry) is not recorded")
+			}
 			until := args[1]
 			isNil := isNilConst(until)
 			tempOK := false
@@ -347,14 +362,23 @@ func checkC17(R *Run) {
 			okAll = false
 			why += "the list is marshalled before the entry is inserted; "
 		}
-		for _, ret := range returnsOf(add) {
-			if !isSuccessReturn(ret) {
-				continue
+		// the entry put into the list stays there whatever happens afterwards: a ban that could not be written to
+		// disk is still enforced by the running server (the handler only logs the error)
+		for _, ci := range callsIn(add) {
+			if calleeName(ci.Common()) == "builtin.delete" {
+				if f, ok := loadedField(ci.Common().Args[0]); ok && f == "mobius.BanFile.banList" {
+					okAll = false
+					why += "Add removes an entry from the in-memory list at " + P.ipos(ci) + " (a requested ban is dropped when the file cannot be written, and an earlier ban of the same address is lifted); "
+				}
 			}
-			if !mustPassBefore(add, ret, isPersist) {
-				okAll = false
-				why += "a success return at " + P.ipos(ret) + " is reachable without writing the ban file; "
+		}
+		if passOK, w, _ := successMustPass(add, isPersist); !passOK {
+			okAll = false
+			why += "a success return"
+			if w != nil {
+				why += " at " + P.ipos(w)
 			}
+			why += " is reachable without writing the ban file; "
 		}
 		// the data written is the marshalled list
 		if marshal != nil {
@@ -593,5 +617,52 @@ func (R *Run) ruleDisconnectShape(rule string) {
 			missing = append(missing, "registry removal before the notification")
 		}
 		R.check(len(missing) == 0, rule, fname(d), P.pos(d.Pos()), "removes the registry entry, then notifies the others (302 with the user's ID) and closes the connection on every path", "Disconnect lacks: "+strings.Join(missing, ", "))
+
+		// Close is what releases a writer blocked on a client that stopped reading; it must therefore not wait for
+		// a mutex that such a writer holds (the mutexes held around writes to ClientConn.Connection)
+		L := newLockInfo(P)
+		ioLocks := map[string]bool{}
+		for _, fn := range P.Funcs {
+			for _, ci := range callsIn(fn) {
+				c := ci.Common()
+				n := calleeName(c)
+				if n != "io.Copy" && n != "encoding/binary.Write" && !(c.IsInvoke() && c.Method.Name() == "Write") {
+					continue
+				}
+				dst := c.Value
+				if !c.IsInvoke() {
+					dst = c.Args[0]
+				}
+				if f, ok := loadedField(dst); !ok || f != "hotline.ClientConn.Connection" {
+					continue
+				}
+				for id := range L.at[ci.(ssa.Instruction)] {
+					ioLocks[id.Field] = true
+				}
+			}
+		}
+		blocked := ""
+		for _, ci := range callsIn(d) {
+			id, op, isLock := P.lockOp(d, ci.Common())
+			if !isLock || op != "lock" || !ioLocks[id.Field] {
+				continue
+			}
+			for _, cj := range callsIn(d) {
+				c := cj.Common()
+				if c.IsInvoke() && c.Method.Name() == "Close" {
+					if f, ok := loadedField(c.Value); ok && f == "hotline.ClientConn.Connection" {
+						if cj.Block() == ci.Block() && instrIndex(cj.(ssa.Instruction)) > instrIndex(ci.(ssa.Instruction)) || cj.Block() != ci.Block() && reachableFrom(ci.Block(), nil)[cj.Block()] {
+							blocked = id.Field
+						}
+					}
+				}
+			}
+		}
+		var names []string
+		for f := range ioLocks {
+			names = append(names, shortField(f))
+		}
+		sort.Strings(names)
+		R.check(blocked == "" && len(ioLocks) > 0, rule, fname(d)+": Close does not wait for a writer", P.pos(d.Pos()), "no mutex held around writes to the connection ("+strings.Join(names, ", ")+") is acquired before Close", "Disconnect acquires "+blocked+" before closing the connection; a sender blocked in a write to a client that stopped reading holds that mutex until the connection is closed, so the kicked or banned user is never disconnected")
 	}
 }
